@@ -19,10 +19,46 @@ fn edges_of(g: &G) -> Vec<EdgeInfo> {
     }).collect()
 }
 
+/// why a crossing at `c` of the inputs is not a point of the collided graph: asks `curve_intersects_curve_clip` (the routine
+/// `find_collisions` uses) about the edges of the input graphs that pass `c`.
+///   hit_reported_twice_removed_as_pair : one call reports the crossing as two hits less than SMALL_T_DISTANCE apart in both
+///                                        parameters; remove_and_round_close_collisions removes such a pair as a tangential touch
+///   found_by_clip_not_in_graph         : the routine finds the crossing, the graph still lacks it
+///   missed_by_clip                     : the routine does not report it (completeness of the intersection routine, C02)
+fn classify_missed_crossing(inputs: &[(&Vec<P>, u32)], c: Coord2) -> &'static str {
+    let mut near: Vec<(u32, Curve<Coord2>)> = vec![];
+    for (paths, label) in inputs { for p in paths.iter() {
+        let p2 = p.clone();
+        let g = match std::panic::catch_unwind(move || GraphPath::from_path(&p2, PathLabel(0))) { Ok(g) => g, Err(_) => continue };
+        for e in g.all_edges() {
+            let cubic = from_curve(&e);
+            let flat: Vec<Coord2> = (0..=256).map(|k| bez(&cubic, k as f64 / 256.0)).collect();
+            if dist_open_polyline(c, &flat) < 0.05 { near.push((*label, Curve::from_curve(&e))); }
+        }
+    } }
+    let mut found = false;
+    for i in 0..near.len() { for j in 0..near.len() {
+        if i == j { continue; }
+        if inputs.len() > 1 && near[i].0 == near[j].0 { continue; }
+        let (x, y) = (near[i].1.clone(), near[j].1.clone());
+        let hits = match std::panic::catch_unwind(move || { let h = curve_intersects_curve_clip(&x, &y, ACC); h.into_iter().map(|(t1, t2)| (t1, t2, x.point_at_pos(t1))).collect::<Vec<_>>() }) { Ok(h) => h, Err(_) => continue };
+        let hits: Vec<_> = hits.into_iter().filter(|(_, _, p)| dist(*p, c) < 0.05).collect();
+        if !hits.is_empty() { found = true; }
+        for a in 0..hits.len() { for b in (a + 1)..hits.len() {
+            if (hits[a].0 - hits[b].0).abs() < 1e-6 && (hits[a].1 - hits[b].1).abs() < 1e-6 { return "hit_reported_twice_removed_as_pair"; }
+        } }
+    } }
+    if found { "found_by_clip_not_in_graph" } else { "missed_by_clip" }
+}
+
 fn dist_open_polyline(p: Coord2, q: &[Coord2]) -> f64 { q.windows(2).fold(f64::MAX, |d, w| d.min(dist_seg(p, w[0], w[1]))) }
 
 /// the checks of the statement on a collided graph. `inputs`: (paths, label) as they went in; `class` goes into the keys
-fn check_graph(stats: &mut Stats, g: &G, inputs: &[(&Vec<P>, u32)], class: &str, detail: &dyn Fn() -> String) {
+fn check_graph(stats: &mut Stats, g: &G, inputs: &[(&Vec<P>, u32)], class: &str, detail: &dyn Fn() -> String) { check_graph_x(stats, g, inputs, class, detail, false) }
+
+/// `between_inputs_only`: `collide` resolves the crossings BETWEEN its two operands; crossings of an operand with itself are the
+/// business of `self_collide`, so for a self-intersecting operand only pairs of edges with different labels are tested
+fn check_graph_x(stats: &mut Stats, g: &G, inputs: &[(&Vec<P>, u32)], class: &str, detail: &dyn Fn() -> String, between_inputs_only: bool) {
     let np = g.num_points();
     let edges = edges_of(g);
     stats.add("graph_edges", edges.len() as u64);
@@ -54,12 +90,12 @@ fn check_graph(stats: &mut Stats, g: &G, inputs: &[(&Vec<P>, u32)], class: &str,
             for q in fp.iter().step_by(3) {
                 let (mut d_same, mut d_any) = (f64::MAX, f64::MAX);
                 for e in &edges { let d = dist_open_polyline(*q, &e.flat); d_any = d_any.min(d); if e.label == *label { d_same = d_same.min(d); } }
-                if d_same > 0.05 {
+                if gt(d_same, 0.05) {
                     // confirm on a finer flattening of the edges before reporting
                     let (mut f_same, mut f_any) = (f64::MAX, f64::MAX);
                     for e in &edges { let fine: Vec<Coord2> = (0..=512).map(|k| bez(&e.cubic, k as f64 / 512.0)).collect(); let d = dist_open_polyline(*q, &fine); f_any = f_any.min(d); if e.label == *label { f_same = f_same.min(d); } }
                     let _ = (d_any, d_same);
-                    if f_same > 0.05 {
+                    if gt(f_same, 0.05) {
                         if f_any <= 0.05 { stats.fail(PROP, &format!("label_changed.{}", class), &format!("input point {:?} of the path labelled {} is {} from the nearest edge with that label but {} from an edge with another label {}", q, label, f_same, f_any, detail())); }
                         else { stats.fail(PROP, &format!("shape_not_preserved.input_point_off_graph.{}", class), &format!("input point {:?} of the path labelled {} is {} from every edge {}", q, label, f_any, detail())); }
                         break 'shape;
@@ -74,7 +110,7 @@ fn check_graph(stats: &mut Stats, g: &G, inputs: &[(&Vec<P>, u32)], class: &str,
             for q in &samples {
                 if dist_polys(*q, &flats) <= 0.04 { continue; }
                 let d = dist_polys(*q, &fines);
-                if d > 0.05 {
+                if gt(d, 0.05) {
                     // on another input?
                     let other = inputs.iter().filter(|(_, l)| l != label).any(|(ps, _)| dist_polys(*q, &ps.iter().map(flatten_fine).collect::<Vec<_>>()) <= 0.05);
                     if other { stats.fail(PROP, &format!("label_changed.{}", class), &format!("point {:?} of edge {} ({:?}, label {}) is {} from the input with that label but lies on an input with another label {}", q, i, e.cubic, label, d, detail())); }
@@ -89,6 +125,7 @@ fn check_graph(stats: &mut Stats, g: &G, inputs: &[(&Vec<P>, u32)], class: &str,
     // planarity: no two distinct edges cross transversally away from their end points
     'outer: for i in 0..edges.len() { for j in (i + 1)..edges.len() {
         let (ei, ej) = (&edges[i], &edges[j]);
+        if between_inputs_only && ei.label == ej.label { continue; }
         let bi = bbox_of(&[ei.cubic.to_vec()]);
         let bj = bbox_of(&[ej.cubic.to_vec()]);
         if bi.0 .0 > bj.1 .0 || bj.0 .0 > bi.1 .0 || bi.0 .1 > bj.1 .1 || bj.0 .1 > bi.1 .1 { continue; }
@@ -101,8 +138,9 @@ fn check_graph(stats: &mut Stats, g: &G, inputs: &[(&Vec<P>, u32)], class: &str,
             for c in cs {
                 let ends = [ei.cubic[0], ei.cubic[3], ej.cubic[0], ej.cubic[3]];
                 let d_end = ends.iter().fold(f64::MAX, |d, v| d.min(dist(*v, c.p)));
-                if d_end > 0.05 && c.sin > 0.05 {
-                    stats.fail(PROP, &format!("edges_cross.{}", class), &format!("edges {} ({:?}, label {}) and {} ({:?}, label {}) cross at {:?} (t={}, {}; sin={}; {} from the nearest edge end) {}", i, ei.cubic, ei.label, j, ej.cubic, ej.label, c.p, c.u, c.v, c.sin, d_end, detail()));
+                if gt(d_end, 0.05) && gt(c.sin, 0.05) {
+                    let why = classify_missed_crossing(inputs, c.p);
+                    stats.fail(PROP, &format!("edges_cross.{}.{}", why, class), &format!("edges {} ({:?}, label {}) and {} ({:?}, label {}) cross at {:?} (t={}, {}; sin={}; {} from the nearest edge end; {}) {}", i, ei.cubic, ei.label, j, ej.cubic, ej.label, c.p, c.u, c.v, c.sin, d_end, why, detail()));
                     break 'outer;
                 }
             }
@@ -110,7 +148,9 @@ fn check_graph(stats: &mut Stats, g: &G, inputs: &[(&Vec<P>, u32)], class: &str,
     } }
 }
 
-fn collide_pair(stats: &mut Stats, a: &Vec<P>, b: &Vec<P>, class: &str) {
+fn collide_pair(stats: &mut Stats, a: &Vec<P>, b: &Vec<P>, class: &str) { collide_pair_x(stats, a, b, class, false) }
+
+fn collide_pair_x(stats: &mut Stats, a: &Vec<P>, b: &Vec<P>, class: &str, between_inputs_only: bool) {
     let detail = || format!("A={:?} B={:?}", a, b);
     let (a2, b2) = (a.clone(), b.clone());
     let g = run_guarded(stats, PROP, "collide", &detail, move || {
@@ -118,7 +158,7 @@ fn collide_pair(stats: &mut Stats, a: &Vec<P>, b: &Vec<P>, class: &str) {
         let gb = GraphPath::from_merged_paths(b2.iter().map(|p| (p, PathLabel(1))));
         ga.collide(gb, ACC)
     });
-    if let Some(g) = g { check_graph(stats, &g, &[(a, 0), (b, 1)], class, &detail); }
+    if let Some(g) = g { check_graph_x(stats, &g, &[(a, 0), (b, 1)], class, &detail, between_inputs_only); }
 }
 
 fn self_collide_set(stats: &mut Stats, set: &Vec<P>, class: &str) {
@@ -154,7 +194,23 @@ pub fn search(seed: u64, n: u64) {
         collide_pair(&mut stats, &a, &b, "corpus.grid_rects");
     } }
     for it in 0..n {
-        if it % 5 == 4 {
+        if it % 11 == 10 {
+            // a self-intersecting or degenerate path (bow tie, looped cubic, tear drop, repeated vertex, pentagram) against a shape,
+            // or collided with itself
+            let (p, k) = odd_path(&mut rng);
+            // the property quantifies over closed paths (from_path closes an open path with an extra edge)
+            let p = closed_path(&p);
+            if p.1.is_empty() { stats.count("input.odd.empty_skipped"); continue; }
+            stats.count(&format!("input.odd.{}", k));
+            if rng.b() {
+                let s = rand_shape(&mut rng);
+                stats.case(&format!("odd {} A={:?} B={:?}", k, p, s.path), true);
+                collide_pair_x(&mut stats, &vec![p], &vec![s.path], &format!("odd.{}", k), true);
+            } else {
+                stats.case(&format!("odd self_collide {} {:?}", k, p), true);
+                self_collide_set(&mut stats, &vec![p], &format!("odd_self.{}", k));
+            }
+        } else if it % 5 == 4 {
             // one graph collided with itself: a set of overlapping simple shapes under one label
             let k = 2 + rng.i(2) as usize;
             let set: Vec<P> = (0..k).map(|_| { let s = rand_shape(&mut rng); redirect(&mut rng, &s.path) }).collect();
@@ -172,4 +228,274 @@ pub fn search(seed: u64, n: u64) {
         }
     }
     stats.print(PROP, "search");
+}
+
+// ================================================================================================ correspondence
+// Transcripts for the Lean model `Model.Graph` (lean/FloVerif/Driver/C03.lean).
+//   graph block  G := #np { px py #ne { #end #fol #label #kind c1x c1y c2x c2y }* #nr { #rs #ri }* #nc { #c }* }*
+//                 (#label / #nr / #nc = 999999 when the source of the dump does not provide them:
+//                  the public queries give labels and reverse edges, the hook gives connected_from)
+//   C03 from_path D #label #nsections { #skip }* #closed | G
+//   C03 merge     D G(a) G(b) | G(merged)
+//   C03 collide   D G(start, public) #ncoll { #p1 #e1 t1 #p2 #e2 t2 }* #npts { #q }* #any #nacc { #a #b }* #nrem { #p #e }*
+//                   | G(start, hook) #has_split [G(split) G(recalc)] G(combined) G(end) G(final, public)      (hook only)
+//   C03 final     D #nlabels { #label }* | G(final, public)                                                   (without the hook)
+const UNKNOWN: usize = 999_999;
+const CLOSE: f64 = 0.01; // consts::CLOSE_DISTANCE (private module)
+
+struct EdgeRec { end: usize, fol: usize, label: usize, kind: usize, cp: [f64; 4] }
+struct PointRec { pos: (f64, f64), edges: Vec<EdgeRec>, rev: Option<Vec<(usize, usize)>>, conn: Option<Vec<usize>> }
+
+/// start_idx, edge_idx of an edge reference (its fields are crate-private; it derives Debug)
+fn ref_numbers(r: &GraphEdgeRef) -> (usize, usize) {
+    let s = format!("{:?}", r);
+    let num = |key: &str| -> usize { s.split(key).nth(1).map(|t| t.trim_start_matches(|c: char| c == ':' || c == ' ').chars().take_while(|c| c.is_ascii_digit()).collect::<String>()).and_then(|t| t.parse().ok()).unwrap_or(UNKNOWN) };
+    (num("start_idx"), num("edge_idx"))
+}
+
+fn kind_number(k: GraphPathEdgeKind) -> usize {
+    match k { GraphPathEdgeKind::Uncategorised => 0, GraphPathEdgeKind::Visited => 1, GraphPathEdgeKind::Exterior => 2, GraphPathEdgeKind::Interior => 3 }
+}
+
+/// the graph as the public queries show it (+ connected_from when the hook is there)
+fn public_dump(g: &G) -> Vec<PointRec> {
+    let np = g.num_points();
+    #[cfg(has_collide_hook)]
+    let hook = g.verif_dump();
+    (0..np).map(|p| {
+        let pos = g.point_position(p);
+        let edges = g.edge_refs_for_point(p).map(|r| {
+            let e = g.get_edge(r);
+            let (cp1, cp2) = e.control_points();
+            let (_, fol) = ref_numbers(&g.following_edge_ref(r));
+            EdgeRec { end: e.end_point_index(), fol, label: e.label().0 as usize, kind: kind_number(e.kind()), cp: [cp1.0, cp1.1, cp2.0, cp2.1] }
+        }).collect();
+        let rev = g.reverse_edges_for_point(p).map(|e| ref_numbers(&GraphEdgeRef::from(&e))).collect();
+        #[cfg(has_collide_hook)]
+        let conn = Some(hook[p].connected_from.clone());
+        #[cfg(not(has_collide_hook))]
+        let conn = None;
+        PointRec { pos: (pos.0, pos.1), edges, rev: Some(rev), conn }
+    }).collect()
+}
+
+#[cfg(has_collide_hook)]
+fn hook_dump(d: &Vec<verif_collide_trace::PointDump>) -> Vec<PointRec> {
+    d.iter().map(|pt| PointRec {
+        pos: pt.position,
+        edges: pt.edges.iter().map(|(end, fol, kind, c1, c2)| EdgeRec { end: *end, fol: *fol, label: UNKNOWN, kind: *kind as usize, cp: [c1.0, c1.1, c2.0, c2.1] }).collect(),
+        rev: None,
+        conn: Some(pt.connected_from.clone()),
+    }).collect()
+}
+
+fn fmt_graph(g: &Vec<PointRec>) -> String {
+    let mut s = format!("#{}", g.len());
+    for pt in g {
+        s += &format!(" {} {} #{}", hx(pt.pos.0), hx(pt.pos.1), pt.edges.len());
+        for e in &pt.edges { s += &format!(" #{} #{} #{} #{} {}", e.end, e.fol, e.label, e.kind, hxs(&e.cp)); }
+        match &pt.rev { Some(r) => { s += &format!(" #{}", r.len()); for (a, b) in r { s += &format!(" #{} #{}", a, b); } } None => s += &format!(" #{}", UNKNOWN) }
+        match &pt.conn { Some(c) => { s += &format!(" #{}", c.len()); for a in c { s += &format!(" #{}", a); } } None => s += &format!(" #{}", UNKNOWN) }
+    }
+    s
+}
+
+/// `from_path` with the decisions of `from_clockwise_path` recomputed from the path through the same public predicates
+fn corr_from_path(stats: &mut Stats, path: &P, label: u32, class: &str) {
+    let q: P = if path.is_clockwise() { path.clone() } else { path.reversed::<P>() };
+    let start = q.start_point();
+    let mut last = start;
+    let mut skips = vec![];
+    let mut kept = 0;
+    for (cp1, cp2, end) in q.points() {
+        let skip = end.is_near_to(&last, CLOSE) && cp1.is_near_to(&last, CLOSE) && cp2.is_near_to(&cp1, CLOSE);
+        skips.push(skip);
+        if !skip { last = end; kept += 1; }
+    }
+    let closed = kept > 0 && start.distance_to(&last) < CLOSE;
+    let p2 = path.clone();
+    let g = match std::panic::catch_unwind(move || GraphPath::from_path(&p2, PathLabel(label))) { Ok(g) => g, Err(_) => { stats.count("from_path.panicked"); return; } };
+    let line = format!("{} from_path D #{} #{}{} #{} | {}", PROP, label, skips.len(), skips.iter().map(|s| format!(" #{}", *s as u8)).collect::<String>(), closed as u8, fmt_graph(&public_dump(&g)));
+    stats.case(&line, kept >= 2);
+    stats.count(&format!("from_path.{}", class));
+    if skips.iter().any(|s| *s) { stats.count("from_path.with_skipped_section"); }
+    if !closed && kept > 0 { stats.count("from_path.closing_edge_added"); }
+    if kept == 0 { stats.count("from_path.empty"); }
+    println!("{}", line);
+}
+
+fn corr_merge(stats: &mut Stats, a: &G, b: &G) {
+    let m = a.clone().merge(b.clone());
+    let line = format!("{} merge D {} {} | {}", PROP, fmt_graph(&public_dump(a)), fmt_graph(&public_dump(b)), fmt_graph(&public_dump(&m)));
+    stats.case(&line, a.num_points() > 0 && b.num_points() > 0);
+    stats.count("merge");
+    println!("{}", line);
+}
+
+/// one traced `detect_collisions`: `start` = the graph it starts from (public dump, with labels), `run` performs the call
+#[cfg(has_collide_hook)]
+fn corr_collide<F: FnOnce() -> G>(stats: &mut Stats, start: Vec<PointRec>, class: &str, run: F) -> Option<G> {
+    use verif_collide_trace::Event;
+    verif_collide_trace::start();
+    let r = std::panic::catch_unwind(std::panic::AssertUnwindSafe(run));
+    let events = verif_collide_trace::take();
+    let g = match r { Ok(g) => g, Err(_) => { stats.count(&format!("collide.panicked.{}", class)); return None; } };
+    let mut colls: Vec<(usize, usize, f64, usize, usize, f64)> = vec![];
+    let mut pts: Vec<usize> = vec![];
+    let mut any = false;
+    let mut acc: Vec<(usize, usize)> = vec![];
+    let mut rem: Vec<(usize, usize)> = vec![];
+    let mut stages: Vec<(&'static str, Vec<PointRec>)> = vec![];
+    let mut n_start = 0;
+    for ev in &events {
+        match ev {
+            Event::Graph(name, d) => { if *name == "start" { n_start += 1; } stages.push((name, hook_dump(d))); }
+            Event::Collisions(c) => colls = c.clone(),
+            Event::CollisionPoints(p) => pts = p.clone(),
+            Event::CombineBegin => any = true,
+            Event::Combined(a, b) => acc.push((*a, *b)),
+            Event::Removed(p, e) => rem.push((*p, *e)),
+        }
+    }
+    if n_start != 1 { stats.count("collide.unexpected_trace_shape"); return Some(g); }
+    let stage = |name: &str| stages.iter().find(|(n, _)| *n == name).map(|(_, d)| fmt_graph(d));
+    let has_split = stage("split").is_some();
+    let mut line = format!("{} collide D {} #{}", PROP, fmt_graph(&start), colls.len());
+    for (p1, e1, t1, p2, e2, t2) in &colls { line += &format!(" #{} #{} {} #{} #{} {}", p1, e1, hx(*t1), p2, e2, hx(*t2)); }
+    line += &format!(" #{}", pts.len());
+    for q in &pts { line += &format!(" #{}", q); }
+    line += &format!(" #{} #{}", any as u8, acc.len());
+    for (a, b) in &acc { line += &format!(" #{} #{}", a, b); }
+    line += &format!(" #{}", rem.len());
+    for (p, e) in &rem { line += &format!(" #{} #{}", p, e); }
+    line += &format!(" | {} #{}", stage("start").unwrap_or_default(), has_split as u8);
+    if has_split { line += &format!(" {} {}", stage("split").unwrap_or_default(), stage("recalc").unwrap_or_default()); }
+    line += &format!(" {} {} {}", stage("combined").unwrap_or_default(), stage("end").unwrap_or_default(), fmt_graph(&public_dump(&g)));
+    stats.case(&line, !colls.is_empty() || !acc.is_empty());
+    stats.count(&format!("collide.{}", class));
+    stats.add("collisions", colls.len() as u64);
+    stats.add("merged_point_pairs", acc.len() as u64);
+    stats.add("removed_short_edges", rem.len() as u64);
+    if colls.is_empty() { stats.count("collide.no_collisions"); }
+    if colls.iter().any(|c| c.2 <= 0.0 || c.5 <= 0.0) { stats.count("collide.with_hit_at_t0"); }
+    if colls.iter().any(|c| (c.0, c.1) == (c.3, c.4)) { stats.count("collide.with_edge_self_intersection"); }
+    // remove_and_round_close_collisions snaps a source parameter within SMALL_T_DISTANCE of 1 to 1 (the hit is then dropped), but its
+    // target-side test is nested under `t < SMALL_T_DISTANCE` and can never fire: such target parameters reach the dividing loops
+    stats.add("hits_with_source_t_within_1e-6_of_1", colls.iter().filter(|c| (c.0, c.1) != (c.3, c.4) && c.2 > 1.0 - 1e-6).count() as u64);
+    stats.add("hits_with_target_t_within_1e-6_of_1", colls.iter().filter(|c| (c.0, c.1) != (c.3, c.4) && c.5 > 1.0 - 1e-6).count() as u64);
+    {
+        // several hits on one edge
+        let mut per_edge = std::collections::HashMap::new();
+        for c in &colls { *per_edge.entry((c.0, c.1)).or_insert(0) += 1; *per_edge.entry((c.3, c.4)).or_insert(0) += 1; }
+        if per_edge.values().any(|n| *n >= 2) { stats.count("collide.with_edge_split_more_than_once"); }
+    }
+    if !acc.is_empty() { stats.count("collide.with_merged_points"); }
+    if let Some((_, end)) = stages.iter().find(|(n, _)| *n == "end") {
+        // connected_from entries of the resulting graph that no edge justifies (remove_edge leaves them behind)
+        let stale: usize = end.iter().enumerate().map(|(p, pt)| pt.conn.as_ref().map(|c| c.iter().filter(|s| !end.get(**s).map(|q| q.edges.iter().any(|e| e.end == p)).unwrap_or(false)).count()).unwrap_or(0)).sum();
+        if stale > 0 { stats.count("collide.result_with_stale_connected_from_entry"); stats.add("stale_connected_from_entries", stale as u64); }
+    }
+    if !rem.is_empty() { stats.count("collide.with_removed_edges"); }
+    println!("{}", line);
+    Some(g)
+}
+
+/// without the hook: only the final graph is visible
+#[cfg(not(has_collide_hook))]
+fn corr_collide<F: FnOnce() -> G>(stats: &mut Stats, start: Vec<PointRec>, class: &str, run: F) -> Option<G> {
+    let g = match std::panic::catch_unwind(std::panic::AssertUnwindSafe(run)) { Ok(g) => g, Err(_) => { stats.count(&format!("collide.panicked.{}", class)); return None; } };
+    let mut labels: Vec<usize> = start.iter().flat_map(|p| p.edges.iter().map(|e| e.label)).collect();
+    labels.sort(); labels.dedup();
+    let line = format!("{} final D #{}{} | {}", PROP, labels.len(), labels.iter().map(|l| format!(" #{}", l)).collect::<String>(), fmt_graph(&public_dump(&g)));
+    stats.case(&line, g.num_points() > start.len());
+    stats.count(&format!("final.{}", class));
+    println!("{}", line);
+    Some(g)
+}
+
+/// the path with a closing line appended when its last point is not its start point
+fn closed_path(p: &P) -> P {
+    let mut q = p.clone();
+    if let Some(last) = q.1.last() { let (a, b) = (last.2, q.0); if a != b { q.1.push((a + (b - a) * (1.0 / 3.0), a + (b - a) * (2.0 / 3.0), b)); } }
+    q
+}
+
+/// self-intersecting and degenerate inputs the shape generators do not produce
+fn odd_path(rng: &mut Rng) -> (P, &'static str) {
+    let c = rand_centre(rng);
+    let r = rng.r(8.0, 20.0);
+    match rng.i(6) {
+        0 => {
+            // bow tie: a polygon whose edges cross
+            let pts = [Coord2(c.0 - r, c.1 - r), Coord2(c.0 + r, c.1 + r * rng.r(0.5, 1.0)), Coord2(c.0 + r, c.1 - r), Coord2(c.0 - r, c.1 + r)];
+            (polygon(&pts), "bow_tie")
+        }
+        1 => {
+            // one cubic that crosses itself, closed by the closing edge
+            let s = Coord2(c.0 - r, c.1);
+            ((s, vec![(Coord2(c.0 + 3.0 * r, c.1 + 2.0 * r), Coord2(c.0 - 3.0 * r, c.1 + 2.0 * r), Coord2(c.0 + r, c.1))]), "looped_cubic_unclosed")
+        }
+        2 => {
+            // a single section returning to its start (tear drop)
+            ((c, vec![(Coord2(c.0 + r, c.1 + r), Coord2(c.0 - r, c.1 + r), c)]), "tear_drop")
+        }
+        3 => {
+            // polygon with a repeated vertex (a zero-length section that from_path skips) and not closed explicitly
+            let p = rand_polygon_points(rng, c, r, true);
+            let mut b = BezierPathBuilder::<P>::start(p[0]);
+            for (i, q) in p[1..].iter().enumerate() { b = b.line_to(*q); if i == 0 { b = b.line_to(*q); } }
+            (b.build(), "repeated_vertex_unclosed")
+        }
+        4 => {
+            // pentagram
+            (polygon(&star_points(5, 2, c, r, rng.r(0.0, TAU))), "pentagram")
+        }
+        _ => {
+            // a path of one point / two points
+            if rng.b() { ((c, vec![]), "single_point") } else { (polygon(&[c, Coord2(c.0 + r, c.1)]), "two_points") }
+        }
+    }
+}
+
+pub fn corr(seed: u64, n: u64) {
+    quiet_panics();
+    let mut rng = Rng(seed ^ 0xC0227C03);
+    let mut stats = Stats::new();
+    let build = |set: &Vec<P>, label: u32| -> Option<G> { let s = set.clone(); std::panic::catch_unwind(move || GraphPath::from_merged_paths(s.iter().map(|p| (p, PathLabel(label))))).ok() };
+    let mut cases: Vec<(Vec<P>, Vec<P>, Option<Vec<P>>, String)> = vec![];
+    // fixed corpus first (shared edges, tangencies, identical shapes)
+    for (name, a, b) in tangent_corpus() { for v in 0..4 { let (a, b) = corpus_variant(&a, &b, v); cases.push((a, b, None, format!("corpus.{}", name))); } }
+    for it in 0..n {
+        match it % 8 {
+            5 => { let (p, k) = odd_path(&mut rng); let s = rand_shape(&mut rng); cases.push((vec![p], vec![s.path], None, format!("odd.{}", k))); }
+            6 => { let pair = gen_pair(&mut rng); let c = rand_shape(&mut rng); cases.push((pair.a, pair.b, Some(vec![c.path]), format!("chain.{}", pair.relation))); }
+            7 => { let k = 2 + rng.i(2) as usize; let mut set: Vec<P> = (0..k).map(|_| { let s = rand_shape(&mut rng); redirect(&mut rng, &s.path) }).collect(); if rng.b() { set.push(odd_path(&mut rng).0); } cases.push((set, vec![], None, "self_collide".to_string())); }
+            _ => { let pair = gen_pair(&mut rng); cases.push((pair.a, pair.b, None, pair.class.clone())); }
+        }
+    }
+    for (a, b, c, class) in cases {
+        for p in a.iter().chain(b.iter()) { corr_from_path(&mut stats, p, 3, &class.split('.').next().unwrap_or("").to_string()); }
+        if class == "self_collide" {
+            let g0 = match build(&a, 0) { Some(g) => g, None => { stats.count("build.panicked"); continue; } };
+            let start = public_dump(&g0);
+            corr_collide(&mut stats, start, "self_collide", move || { let mut g = g0; g.self_collide(ACC); g });
+            continue;
+        }
+        let (ga, gb) = match (build(&a, 0), build(&b, 1)) { (Some(x), Some(y)) => (x, y), _ => { stats.count("build.panicked"); continue; } };
+        corr_merge(&mut stats, &ga, &gb);
+        let start = public_dump(&ga.clone().merge(gb.clone()));
+        let first = corr_collide(&mut stats, start, if c.is_some() { "pair_then_third" } else { "pair" }, move || ga.collide(gb, ACC));
+        // a collided graph collided again (its connected_from lists went through remove_edge)
+        if let (Some(g1), Some(c)) = (first, c) {
+            if let Some(gc) = build(&c, 2) {
+                let start = public_dump(&g1.clone().merge(gc.clone()));
+                corr_collide(&mut stats, start, "collided_graph_again", move || g1.collide(gc, ACC));
+            }
+        }
+    }
+    #[cfg(has_collide_hook)]
+    stats.count("hook.verif_collide_trace.present");
+    #[cfg(not(has_collide_hook))]
+    stats.count("hook.verif_collide_trace.absent");
+    stats.print(PROP, "corr");
 }
